@@ -123,6 +123,20 @@ def ann_text(arg):
     return ast.unparse(a)
 
 
+def default_modifies(node, c):
+    """Arrays a callee may write when the contract does not say: every array parameter not annotated Final."""
+    out = []
+    for a in node.args.args:
+        p = parse_annotation(ann_text(a)) if ann_text(a) else None
+        ov = c.params.get(a.arg) if c is not None else None
+        if ov is not None:
+            if 'arr' in ov:
+                out.append(a.arg)
+        elif p is not None and p[0] == 'array' and not p[3]:
+            out.append(a.arg)
+    return out
+
+
 def verify_function(ctx, relpath, qual, canary=True):
     """Symbolically execute one function against its contract; obligations go to ctx.obligations."""
     eng = ctx.engine
@@ -181,6 +195,16 @@ def verify_function(ctx, relpath, qual, canary=True):
                 if smt.is_qf(f):
                     eng.prove(post, fr, 'no_raise_when', b_not(f), node, clause='raises %s iff %s' % (exc, when))
             fr.spec_only = False
+            # frame: array parameters outside `modifies` are unchanged
+            mods = c.modifies if c.modifies is not None else default_modifies(node, c)
+            for a in node.args.args:
+                v0 = fr.entry.env.get(a.arg)
+                if isinstance(v0, Arr) and a.arg not in mods:
+                    t0, t1 = fr.entry.heap[v0.aid], s.heap[v0.aid]
+                    if not t0.eq(t1):
+                        ks = [fresh('fr') for _ in range(v0.rank)]
+                        eng.prove(post, fr, 'frame', z3.Select(t0, *ks) == z3.Select(t1, *ks), node,
+                                  clause='%s is not in modifies' % a.arg)
             canary_states.append(post)
         elif s.status == 'raise':
             report['raises'] += 1
@@ -221,28 +245,62 @@ def verify_function(ctx, relpath, qual, canary=True):
 # discharge
 # --------------------------------------------------------------------------
 
-def prepare(ctx, ob, rounds=2):
+def prepare(ctx, ob, rounds=2, nosum=False):
     neg = z3.Not(ob.goal)
-    ground = list(ctx.axioms) + list(ob.hyps) + [neg]
+    hyps = list(ob.hyps)
+    if nosum:
+        hyps = [h for h in hyps if not smt.has_sum(h, ctx.registry)]
+    ground = list(ctx.axioms) + hyps + [neg]
     qf = list(ob.qfacts) + list(ctx.global_qfacts)
     hints = list(ob.skolems) + list(ob.hints)
-    insts = smt.instantiate(ground, qf, ctx.registry, rounds=rounds, hints=hints)
-    return ground + insts
+    insts = smt.instantiate(ground, qf, ctx.registry, rounds=rounds, hints=hints, use_sums=not nosum, goal=neg)
+    if nosum:
+        insts = [h for h in insts if not smt.has_sum(h, ctx.registry)]
+    return smt.simplify_all(ground + insts)
 
 
-def _solve_round(pool, items, timeout, backend):
-    """items: list of (ob, text). Returns (decided list, undecided list); sets seconds."""
-    res = pool.map(smt.solve_text, [(txt, timeout, backend) for (_, txt) in items], chunksize=1)
+def split_cases(ctx, ob, rounds, nosum=False):
+    """Proof by cases on the last index of each bounded skolem: sk < hi-1 | sk := hi-1 (substituted).
+    Returns list of assertion lists; the obligation holds iff every case is unsat."""
+    sks = [smt.SK_BOUNDS[k.get_id()] for k in ob.skolems if k.get_id() in smt.SK_BOUNDS][:3]
+    if not sks:
+        return None
+    hyps = list(ob.hyps)
+    if nosum:
+        hyps = [h for h in hyps if not smt.has_sum(h, ctx.registry)]
+    base = list(ctx.axioms) + hyps + [z3.Not(ob.goal)]
+    cases = [([], [])]
+    for (c, lo, hi) in sks:
+        last = ZI(V.binop('Sub', hi, 1))
+        nxt = []
+        for (subs, extra) in cases:
+            nxt.append((subs, extra + [c < last]))
+            nxt.append((subs + [(c, last)], extra))
+        cases = nxt
     out = []
-    for (ob, txt), (st_, secs, be) in zip(items, res):
-        ob.seconds += secs
-        out.append((ob, txt, st_, be))
+    for (subs, extra) in cases:
+        ground = [z3.substitute(x, *subs) if subs else x for x in base] + extra
+        ground = [z3.simplify(x, expand_select_store=True) for x in ground]
+        qf = list(ob.qfacts) + list(ctx.global_qfacts)
+        hints = [k for k in ob.skolems if not any(k.eq(s[0]) for s in subs)] + list(ob.hints)
+        insts = smt.instantiate(ground, qf, ctx.registry, rounds=rounds, hints=hints, use_sums=not nosum)
+        if nosum:
+            insts = [h for h in insts if not smt.has_sum(h, ctx.registry)]
+        out.append(ground + smt.simplify_all(insts))
     return out
 
 
+def _job(args):
+    (oid, strat, part, nparts, text, timeout, backend) = args
+    st_, secs, be = smt.solve_text((text, timeout, backend))
+    return oid, strat, part, nparts, st_, secs, be
+
+
 def discharge(ctx, obligations=None, timeout=20, procs=None, backends=('z3py', 'z3-4.8'), rounds=2, progress=None):
-    """Discharge obligations in stages: ground only, then 1..rounds instantiation rounds.
-    Status per obligation: discharged / refuted (sat at the last stage: candidate counterexample) / undecided."""
+    """Discharge obligations. Phase 1: ground VC; phase 2: one instantiation round; phase 3: a portfolio run
+    concurrently (full instantiation on every back end, proof by cases on the last index of bounded skolems).
+    Status: discharged (some strategy unsat) / refuted (fully instantiated VC sat: candidate counterexample)
+    / undecided."""
     obligations = ctx.obligations if obligations is None else obligations
     procs = procs or min(16, os.cpu_count() or 4)
     t0 = time.time()
@@ -252,12 +310,24 @@ def discharge(ctx, obligations=None, timeout=20, procs=None, backends=('z3py', '
             ob.status, ob.backend = 'discharged', 'rewriter'
         else:
             todo.append(ob)
+    byid = {id(o): o for o in todo}
+
+    def run_jobs(pool, jobs, done_pred):
+        """jobs: list of _job args. Streams results; stops early when done_pred() is true."""
+        it = pool.imap_unordered(_job, jobs, chunksize=1)
+        for r in it:
+            yield r
+            if done_pred():
+                break
+
     if todo:
-        with mp.Pool(procs) as pool:
-            for stage in range(0, rounds + 1):
+        pool = mp.Pool(procs)
+        try:
+            # phase 1 / 2
+            for stage, tmo in ((0, min(timeout, 3)), (1, min(timeout, 6))):
                 if not todo:
                     break
-                items = []
+                jobs = []
                 for ob in todo:
                     try:
                         if stage == 0:
@@ -265,33 +335,96 @@ def discharge(ctx, obligations=None, timeout=20, procs=None, backends=('z3py', '
                         else:
                             asserts = prepare(ctx, ob, stage)
                     except Exception as e:
-                        ob.status, ob.backend = 'undecided', 'instantiation-error: %r' % (e,)
+                        ctx.notes.append('instantiation failed for %s: %r' % (ob.name, e))
                         continue
-                    ob.asserts = asserts
-                    ob.stage = stage
-                    items.append((ob, smt.smt2_of(asserts)))
-                last = stage == rounds
-                tmo = timeout if last else min(timeout, 3 if stage == 0 else 10)
-                nxt = []
-                pending = items
-                for bi, be in enumerate(backends if last else backends[:1]):
-                    if not pending:
-                        break
-                    res = _solve_round(pool, pending, tmo, be)
-                    pending = []
-                    for (ob, txt, st_, be_) in res:
+                    jobs.append((id(ob), 'stage%d' % stage, 0, 1, smt.smt2_of(asserts), tmo, backends[0]))
+                nxt = {id(o) for o in todo}
+                for (oid, strat, part, nparts, st_, secs, be) in pool.imap_unordered(_job, jobs, chunksize=1):
+                    ob = byid[oid]
+                    ob.seconds += secs
+                    if st_ == 'unsat':
+                        ob.status, ob.backend = 'discharged', '%s/%s' % (be, strat)
+                        nxt.discard(oid)
+                todo = [o for o in todo if id(o) in nxt]
+            # phase 3: portfolio
+            if todo:
+                jobs = []
+                state = {}
+                for ob in todo:
+                    st = state[id(ob)] = dict(resolved=False, sat=False, cases={}, open=0)
+                    try:
+                        full = smt.smt2_of(prepare(ctx, ob, rounds))
+                        for be in backends:
+                            jobs.append((id(ob), 'full%d' % rounds, 0, 1, full, timeout, be))
+                            st['open'] += 1
+                        deep = smt.smt2_of(prepare(ctx, ob, rounds + 1))
+                        jobs.append((id(ob), 'full%d' % (rounds + 1), 0, 1, deep, timeout, backends[0]))
+                        st['open'] += 1
+                    except Exception as e:
+                        ctx.notes.append('instantiation failed for %s: %r' % (ob.name, e))
+                    nosum_ok = bool(ctx.registry.sums) and not smt.has_sum(ob.goal, ctx.registry)
+                    if nosum_ok:
+                        try:
+                            txt = smt.smt2_of(prepare(ctx, ob, 1, nosum=True))
+                            jobs.append((id(ob), 'full1/nosum', 0, 1, txt, timeout, backends[0]))
+                            st['open'] += 1
+                        except Exception as e:
+                            ctx.notes.append('instantiation failed for %s: %r' % (ob.name, e))
+                    variants = [(cr, False) for cr in range(1, rounds + 1)] + ([(1, True)] if nosum_ok else [])
+                    for (crounds, ns) in variants:
+                        try:
+                            cases = split_cases(ctx, ob, crounds, nosum=ns)
+                        except Exception as e:
+                            ctx.notes.append('split_cases failed for %s: %r' % (ob.name, e))
+                            cases = None
+                        if cases:
+                            strat = 'cases%d/inst%d%s' % (len(cases), crounds, '/nosum' if ns else '')
+                            st['cases'][strat] = [None] * len(cases)
+                            for k, cs in enumerate(cases):
+                                jobs.append((id(ob), strat, k, len(cases), smt.smt2_of(cs), timeout, backends[0]))
+                                st['open'] += 1
+
+                def all_done():
+                    return all(s['resolved'] for s in state.values())
+                for (oid, strat, part, nparts, st_, secs, be) in run_jobs(pool, jobs, all_done):
+                    ob = byid[oid]
+                    st = state[oid]
+                    st['open'] -= 1
+                    if st['resolved']:
+                        continue
+                    ob.seconds += secs
+                    if strat.startswith('full'):
+                        if st_ == 'sat' and 'nosum' in strat:
+                            st_ = 'unknown'   # a sliced VC cannot refute
                         if st_ == 'unsat':
-                            ob.status, ob.backend = 'discharged', '%s/stage%d' % (be_, stage)
-                        elif st_ == 'sat' and last:
-                            ob.status, ob.backend = 'refuted', '%s/stage%d' % (be_, stage)
-                        elif last:
-                            pending.append((ob, txt))
+                            ob.status, ob.backend = 'discharged', '%s/%s' % (be, strat)
+                            st['resolved'] = True
+                        elif st_ == 'sat' and strat == 'full%d' % (rounds + 1):
+                            st['sat'] = '%s/%s' % (be, strat)
+                    else:
+                        st['cases'][strat][part] = st_
+                        if all(x == 'unsat' for x in st['cases'][strat]):
+                            ob.status, ob.backend = 'discharged', '%s/%s' % (be, strat)
+                            st['resolved'] = True
+                    if not st['resolved'] and st['open'] == 0:
+                        st['resolved'] = True
+                        if st['sat']:
+                            ob.status, ob.backend = 'refuted', st['sat']
                         else:
-                            nxt.append(ob)
-                if last:
-                    for (ob, txt) in pending:
-                        ob.status, ob.backend = 'undecided', 'all-unknown'
-                todo = nxt
+                            ob.status, ob.backend = 'undecided', 'all-unknown'
+                for ob in todo:
+                    if ob.status is None:
+                        st = state[id(ob)]
+                        if st['sat']:
+                            ob.status, ob.backend = 'refuted', st['sat']
+                        else:
+                            ob.status, ob.backend = 'undecided', 'all-unknown'
+        finally:
+            pool.terminate()
+            pool.join()
+    for ob in obligations:
+        if ob.status is None:
+            ob.status, ob.backend = 'undecided', 'not-run'
     summ = dict(obligations=len(obligations),
                 discharged=sum(1 for o in obligations if o.status == 'discharged'),
                 refuted=sum(1 for o in obligations if o.status == 'refuted'),
